@@ -13,8 +13,8 @@
    shipped form or the repaired one - FrameFits judges the result either way.                                         *)
 EXTENDS LlcpCollect, Json, IOUtils, TLCExt
 
-VARIABLES tid, l, lastw
-tvars == <<c, phase, fr, col, rcvd, tid, l, lastw>>
+VARIABLES tid, l, lastw, fails
+tvars == <<c, phase, fr, col, rcvd, tid, l, lastw, fails>>
 
 Traces == ndJsonDeserialize(IOEnv.TRACE_FILE)
 T == Traces[tid].ev
@@ -26,6 +26,7 @@ TInit ==
     /\ l = 1
     /\ c = Dummy /\ phase = "fill" /\ fr = [f |-> <<>>, agf |-> FALSE] /\ col = <<>> /\ rcvd = <<>>
     /\ lastw = <<>>
+    /\ fails = <<>>
 
 Ev == T[l]
 IsEv(a) == l <= Len(T) /\ Ev.a = a /\ l' = l + 1 /\ UNCHANGED tid
@@ -78,28 +79,31 @@ InvP(n) ==
                                  /\ [i \in DOMAIN Ev.rcvd |-> Ev.rcvd[i].wid] = lastw
       [] n = "SendMiuOk"   -> Ev.a = "Send" => Ev.smiu <= Ev.lmiu
 AllInv == \A i \in DOMAIN InvNames : InvP(InvNames[i])
+Broken == SelectSeq(InvNames, LAMBDA n : ~InvP(n))
 
-Real == Guarded /\ ResOk /\ PostOk /\ AllInv
+Conforms == Guarded /\ ResOk /\ PostOk
+\* the step conforms to the spec action; invariants it breaks are recorded and the execution goes on
+Real == Conforms /\ fails' = IF AllInv THEN fails ELSE Append(fails, <<l, Ev.a, Broken>>)
 
 \* --- diagnosis ---------------------------------------------------------------------------
 Brief(f) == [i \in DOMAIN f |-> <<f[i].k, f[i].dl>>]
-FailedInv == SelectSeq(InvNames, LAMBDA n : ~ENABLED (Guarded /\ ResOk /\ PostOk /\ InvP(n)))
 Why == IF ~ENABLED Guarded THEN <<"guard">>
        ELSE IF ~ENABLED (Guarded /\ ResOk) THEN
             <<"result", IF Ev.a = "Collect" THEN Brief(CollectG(Ev.pre, 1, FALSE).f)
                         ELSE IF Ev.a = "Send" THEN SendRes(Ev.n, Ev.smiu) ELSE "-">>
-       ELSE IF ~ENABLED (Guarded /\ ResOk /\ PostOk) THEN <<"post">>
-       ELSE <<"inv", FailedInv>>
+       ELSE <<"post">>
 
 Stuck ==
     /\ l <= Len(T)
     /\ ~ENABLED Real
-    /\ PrintT(<<"STUCK", Traces[tid].id, l, Ev.a, Why>>)
+    /\ PrintT(<<"STUCK", Traces[tid].id, l, Ev.a, Why, fails>>)
     /\ l' = Len(T) + 2
-    /\ UNCHANGED <<c, phase, fr, col, rcvd, tid, lastw>>
+    /\ UNCHANGED <<c, phase, fr, col, rcvd, tid, lastw, fails>>
 
 TNext == Real \/ Stuck
 TSpec == TInit /\ [][TNext]_tvars
 
-Done == (l = Len(T) + 1) => PrintT(<<"ACCEPT", Traces[tid].id>>)
+Done == (l = Len(T) + 1) =>
+            IF fails = <<>> THEN PrintT(<<"ACCEPT", Traces[tid].id>>)
+            ELSE PrintT(<<"STUCK", Traces[tid].id, fails[1][1], fails[1][2], <<"inv", fails[1][3]>>, fails>>)
 =============================================================================
